@@ -56,7 +56,7 @@ fn reads_earlier_write(stmts: &[Stmt]) -> bool {
 fn main() {
     let a = args();
     let mut r = Rng::new(a.seed);
-    let mut cw = CaseWriter::new(&a.out, "Corr.C24", 400);
+    let mut cw = CaseWriter::new(&a.out, "Corr.C24", 100);
     let mut rep = Report::new(&a.out);
     let mut hist = std::collections::BTreeMap::<String, u64>::new();
     let mut nontrivial = std::collections::BTreeSet::<String>::new();
